@@ -11,7 +11,7 @@ TOL = 1e-10
 
 
 def pick_problem(rng, Lmin=1, Lmax=7, maxdim=512):
-    src = str(rng.choice(['model', 'model', 'hermitian-random', 'hermitian-charge-free', 'nn-pattern', 'hermitian-funnel', 'long-range']))
+    src = str(rng.choice(['model', 'model', 'hermitian-random', 'hermitian-charge-free', 'nn-pattern', 'nn-pattern', 'hermitian-funnel', 'long-range']))
     if src == 'long-range':
         # terms whose end points are not neighbours (hopping X_i S ... S X^dagger_j across SPECTATOR sites that carry only identities, strings and fields),
         # compiled from operator chains
@@ -31,8 +31,10 @@ def pick_problem(rng, Lmin=1, Lmax=7, maxdim=512):
             lmax -= 1
         L = int(rng.integers(max(Lmin, 1), lmax + 1))
         qd = rng.integers(-1, 2, size=d) if rng.random() < 0.6 else np.zeros(d, dtype=int)
-        H, pat, _ = gen.nn_pattern_hamiltonian(rng, qd, L, cplx=bool(rng.random() < 0.5))
-        label = 'nn-' + pat
+        cpl_ = bool(rng.random() < 0.6)
+        iso_ = bool(cpl_ and rng.random() < 0.5)
+        H, pat, _ = gen.nn_pattern_hamiltonian(rng, qd, L, cplx=cpl_, iso=iso_)
+        label = 'nn-' + pat + ('+isotropic-blocks' if iso_ else '')
     elif src == 'model':
         name = str(rng.choice(['ising', 'xxz', 'xxz1', 'bose3', 'fermi']))
         d = gen.MODEL_D[name]
